@@ -217,7 +217,20 @@ def solo_sim_to_scheds(prefix_dir, prefix, me):
     return scheds
 
 
-def solo_mc(ctx, name, info, me, maxround, envvalues, weak=(), view=True, invariants=None):
+def solo_witnesses(out, me, tag="WITNESS"):
+    """schedules exported by the Witness 'invariant' of TMConsensusSolo: {goal: [schedule steps]}"""
+    from vlib import tlaparse
+    res = {}
+    for w in tlaparse.extract_tagged(out, tag):
+        goal, hist = str(w[1]), w[2]
+        steps = []
+        for a in hist:
+            steps += solo_act_to_steps(a, me)
+        res.setdefault(goal, []).append(steps)
+    return res
+
+
+def solo_mc(ctx, name, info, me, maxround, envvalues, weak=(), view=True, invariants=None, noenv=(), witness_k=0):
     adv = [n for n in info["names"] if n != me]
     d = ctx.spec_copy()
     names = info["names"]
@@ -226,10 +239,12 @@ def solo_mc(ctx, name, info, me, maxround, envvalues, weak=(), view=True, invari
     with open(os.path.join(d, name + ".tla"), "w") as f:
         f.write("---- MODULE %s ----\nEXTENDS TMConsensusSolo\nPW == [v \\in Vals |-> CASE %s]\nPS == <<%s>>\nADV == <<%s>>\n====\n" % (
             name, pw, ps, ", ".join('"%s"' % a for a in adv)))
-    invs = invariants if invariants is not None else ["NoEquivocation", "PrecommitJustified", "LockRespected", "ProposalCarriesValid"]
+    invs = list(invariants if invariants is not None else ["NoEquivocation", "PrecommitJustified", "LockRespected", "ProposalCarriesValid"])
+    if witness_k:
+        invs.append("Witness")
     lines = ["CONSTANTS", "  Vals = %s" % tla_set(names), '  Me = "%s"' % me, "  Adv <- ADV", "  PowerOf <- PW",
              "  ProposerSeq <- PS", "  MaxRound = %d" % maxround, '  InvalidValues = {"ZX"}',
-             "  EnvValues = %s" % tla_set(envvalues), "  Weak = %s" % tla_set(weak),
+             "  EnvValues = %s" % tla_set(envvalues), "  Weak = %s" % tla_set(weak), "  NoEnv = %s" % tla_set(noenv), "  WitnessK = %d" % witness_k,
              "INIT Init", "NEXT Next", "CHECK_DEADLOCK FALSE"]
     if invs:
         lines.append("INVARIANTS " + " ".join(invs))
